@@ -6,7 +6,7 @@ From Coq Require Import ZArith List Bool Lia.
 Import ListNotations.
 Require Import Base.Py Base.ZList Model.Splice Model.Fam_mp4.
 Require Import Proofs.Fam_mp4_tree Proofs.Fam_mp4_parse Proofs.Fam_mp4_steps Proofs.Fam_mp4_agree Proofs.Fam_mp4_surgery
-  Proofs.Fam_mp4_existing Proofs.Fam_mp4_main Proofs.Fam_mp4_new Proofs.Fam_mp4_c10.
+  Proofs.Fam_mp4_existing Proofs.Fam_mp4_main Proofs.Fam_mp4_new Proofs.Fam_mp4_newwf Proofs.Fam_mp4_c10.
 Open Scope Z_scope.
 
 (* A strict description of a file (atoms tile their parents at every level; 32-bit / 64-bit / to-EOF size forms; nesting
@@ -96,6 +96,19 @@ Theorem C10_offsets_follow_data_new f ilst_data cb f' atoms path last rest :
   (forall A, In A path -> anc_updated f delta f' A).
 Proof. exact (c10_offsets_follow_data_new f ilst_data cb f' atoms path last rest). Qed.
 Print Assumptions C10_offsets_follow_data_new.
+
+(* ... and the result of that insertion is again tiled at every level: the new [udta] meta(hdlr, ilst, free) subtree is
+   well-formed, moov (and udta) carry their old length + delta, everything behind the insertion point is shifted. *)
+Theorem C10_parents_consistent_new f ilst_data cb f' atoms path last rest it :
+  mp4_wf f = true -> mp4_atoms f = Ok atoms -> mp4_path atoms ILST_PATH = None ->
+  mp4_insert_path atoms = Some path -> rev path = last :: rest ->
+  (forall T, In T (all_tabs atoms) -> ma_off T <> ma_off last + ma_hdr last) ->
+  ilst_wellformed ilst_data it -> mp4_height it <= 62 -> zlen ilst_data < 4611686018427387904 ->
+  mp4_save f ilst_data cb = Ok f' ->
+  exists atoms', mp4_atoms f' = Ok atoms' /\ mp4_forest_ok f' true atoms' 0 (zlen f') = true /\
+                 mp4_forest_height atoms' <= MP4_MAXDEPTH.
+Proof. exact (c10_parents_consistent_new f ilst_data cb f' atoms path last rest it). Qed.
+Print Assumptions C10_parents_consistent_new.
 
 (* The chunk an offset addresses: same bytes before and after, and the rewritten entry is exactly where they now are. *)
 Theorem C10_chunk_bytes f ilst_data cb f' atoms path :
